@@ -325,10 +325,18 @@ func filterAccountAddressOnTransactions(address string, source, destination bool
 }
 
 func assetAddressArray(v any) ([]string, error) {
-	value := v.([]any)
-	addresses := Map(value, func(v any) string {
-		return v.(string)
-	})
+	value, ok := v.([]any)
+	if !ok {
+		return nil, NewErrInvalidQuery("IN operator expects an array of addresses")
+	}
+	addresses := make([]string, 0, len(value))
+	for _, item := range value {
+		address, ok := item.(string)
+		if !ok {
+			return nil, NewErrInvalidQuery("IN operator expects an array of addresses")
+		}
+		addresses = append(addresses, address)
+	}
 	for _, address := range addresses {
 		if isPartialAddress(address) {
 			return nil, NewErrInvalidQuery("IN operator only supports full addresses")
